@@ -120,5 +120,14 @@ PROPS["C08"] = {
     "assumptions": [], "outside": "",
 }
 
+PROPS["C13"] = {
+    "programs": {"quick": [P("data", "VerifDecodersArbitraryBytes", len=3),
+                           P("hamt", "VerifHashBitsStep", must_reach=("end", "too-deep")),
+                           P("test", "VerifHostileShard", must_reach=("end","rejected","iterated"), depth=1, links=1),
+                           ]},
+    "bounds": {"quick": "decoders: all byte strings of length 3; hashBits.Next from any state/width; hostile shard DAGs: root + 0..1 links, child shard with 0..1 links, fanouts {8,1024} chosen independently, bitfields 1..2 arbitrary bytes, names absent or 1..4 arbitrary bytes, children raw/shard/missing/non-UnixFS; lazy and preload; Length, 4 lookups, full iteration"},
+    "assumptions": [], "outside": "",
+}
+
 NOT_APPLICABLE = {}
 NOTES = "All checks are bounded: every result reads 'holds for all values within the bounds recorded in the evidence file; nothing is claimed outside them'. exit 2 = inconclusive (never a pass)."
